@@ -35,6 +35,14 @@ CHECKS = {
             "TLC proves NC(eta=0)=EM, positron(P)=electron(-P), charge conjugation (arbitrary CKM, F3 sign) and equal-charge row "
             "equality on the full rational EW lattice; TLC-emitted pairs of real runs are compared row-wise for every order key.",
             "Trusted: TLC, numpy.", "DESIGN.md 7/C13"),
+    "C16": ("model_checking",
+            "TLC OutcomeTotal on the configuration lattice + every TLC-enumerated cell executed for real + TLC trace validation of outcome classes",
+            "TLC proves on the assembly model that every class a cell names exists or the cell is an explicit rejection and enumerates the "
+            "documented lattice (kinds x heavyness x process x projectile x scheme x NfFF x PTO x TMC, cross sections, out-of-domain "
+            "kinematics) with the intended outcome; each enumerated cell is run (all LO/NLO cells, a seed-rotated share of NNLO/N3LO in the "
+            "quick tier) and TLC accepts a line only for OK-and-all-finite or an explicit rejection.",
+            "Trusted: TLC, numpy.isfinite. Kinematics sampled (two x per cell). Known findings listed in known_findings.json.",
+            "DESIGN.md 7/C16"),
 }
 
 PENDING = {}
